@@ -127,7 +127,8 @@ ENDINGS = ['pass', 'fail', 'hard_setup', 'hard_act', 'hard_before-assert', 'hard
            'stdin_missing', 'timeout_setup', 'timeout_act']
 PH = ['setup', 'before-assert', 'assert', 'cleanup']
 OPS = ['cd_tmp', 'cd_sub', 'cd_act', 'env_set', 'env_unset', 'env_set_path', 'chmod_file', 'chmod_dir',
-       'chmod_noperm', 'child_cd', 'tmp_file', 'act_file']
+       'chmod_noperm', 'child_cd', 'tmp_file', 'act_file', 'root_file', 'root_link', 'root_dir']
+ROOT_OPS = ('root_file', 'root_link', 'root_dir')  # the case puts something of its own directly in the sandbox root
 
 
 def cli_build(case):
@@ -160,6 +161,12 @@ def cli_build(case):
                       '$ chmod 000 @[EXACTLY_ACT]@/nodir-%s/inner; chmod 000 @[EXACTLY_ACT]@/nodir-%s' % (tag, tag)]
         elif op == 'child_cd':
             ph[p].append('$ cd @[EXACTLY_TMP]@ && cd / && true')
+        elif op == 'root_file':
+            ph[p].append('$ echo x > @[EXACTLY_ACT]@/../stray-%s.log' % tag)
+        elif op == 'root_link':
+            ph[p].append('$ ln -s act/no-such-target @[EXACTLY_ACT]@/../stray-%s.lnk' % tag)
+        elif op == 'root_dir':
+            ph[p].append('$ mkdir @[EXACTLY_ACT]@/../stray-%s.d && echo y > @[EXACTLY_ACT]@/../stray-%s.d/f' % (tag, tag))
         elif op == 'tmp_file':
             ph[p].append('file -rel-tmp mine-%s.txt = "tmp-%d"' % (tag, j))
             tmp_files['mine-%s.txt' % tag] = 'tmp-%d' % j
@@ -190,6 +197,9 @@ def cli_build(case):
         ph['act'] = ['$ sleep 5']
     if case.get('cleanup_fails') and e != 'hard_cleanup':
         ph['cleanup'].append('$ exit 4')
+    elif case.get('rm_cwd_at_end') and e != 'hard_cleanup':
+        # the very last thing the case does: the directory that is current when execution ends is removed
+        ph['cleanup'] += ['dir -rel-act gone/deep', 'cd -rel-act gone/deep', '$ rmdir @[EXACTLY_ACT]@/gone/deep']
     # observation of the final state: first thing cleanup does (cleanup runs whenever a sandbox exists)
     ph['cleanup'].insert(0, '$ cp -r @[EXACTLY_RESULT]@ {OBS}/result-copy; cp -r @[EXACTLY_TMP]@ {OBS}/tmp-copy; '
                             'ls -A @[EXACTLY_ACT]@/.. | sort > {OBS}/ls1')
@@ -247,6 +257,15 @@ def check_cli(case) -> Verdict:
     ident = (r.first_err_line if keep else r.first_out_line)
     polluting = [op for _, op in case['ops'] if op not in ('tmp_file', 'act_file')]
     labels = ['cli', 'cli-ending:' + e, 'cli-keep:%s' % keep] + ['cli-op:' + op for _, op in case['ops']]
+    rm_cwd = bool(case.get('rm_cwd_at_end')) and e != 'hard_cleanup' and not case.get('cleanup_fails')
+    if rm_cwd:
+        labels.append('cli-current-directory-removed-at-end')
+        polluting.append('rm_cwd')
+    suffix = {'root_file': '.log', 'root_link': '.lnk', 'root_dir': '.d'}
+    strays_at_cleanup = sorted('stray-f%d%s' % (j, suffix[op]) for j, (p, op) in enumerate(case['ops'])
+                               if op in ROOT_OPS and p != 'cleanup' and _reached(case, p))
+    strays_at_end = sorted('stray-f%d%s' % (j, suffix[op]) for j, (p, op) in enumerate(case['ops'])
+                           if op in ROOT_OPS and _reached(case, p))
     if case.get('cleanup_fails'):
         labels.append('cli-cleanup-also-fails')
     nontrivial = e != 'pass' or bool(polluting) or keep or bool(case.get('cleanup_fails'))
@@ -284,7 +303,7 @@ def check_cli(case) -> Verdict:
     # state when cleanup begins
     if obs['ls1'] is None:
         return bad('cleanup-did-not-run')
-    if obs['ls1'].split() != ['act', 'internal', 'result', 'tmp']:
+    if obs['ls1'].split() != sorted(['act', 'internal', 'result', 'tmp'] + strays_at_cleanup):
         return bad('layout-at-cleanup')
     exp_tmp = {}
     for j, (p, op) in enumerate(case['ops']):
@@ -306,7 +325,7 @@ def check_cli(case) -> Verdict:
     if keep:
         if kept is None or [os.path.basename(r.out[:-1])] != sandboxes:
             return bad('kept-sandbox-not-reported-or-missing')
-        if obs['kept_root_entries'] != ['act', 'internal', 'result', 'tmp']:
+        if obs['kept_root_entries'] != sorted(['act', 'internal', 'result', 'tmp'] + strays_at_end):
             return bad('kept-sandbox-layout')
         for name, content in act_files.items():
             j = int(name.split('-f')[1].split('.')[0])
@@ -341,6 +360,7 @@ def cli_cases(draw, allow_timeouts=True):
         ending = draw(st.sampled_from(endings))
     return {'ops': [list(o) for o in ops], 'ending': ending, 'keep': draw(st.booleans()),
             'cleanup_fails': draw(st.integers(0, 3)) == 0,
+            'rm_cwd_at_end': draw(st.integers(0, 4)) == 0,
             'code': draw(st.sampled_from([0, 1, 2, 7, 127, 255]) | st.integers(0, 255)),
             'out': draw(_text), 'err': draw(_text)}
 
